@@ -196,7 +196,9 @@ def run_case(case):
 
 
 POOL = ['res/a.txt', 'res/a.png', 'res/b', 'res/d/', 'res/d/a.txt', 'res/d/e.png', 'res/d/s/', 'res/d/s/f.txt',
-        'res/x.y/', 'res/x.y/g.txt', 'res/c.txt', 'other/h.txt']
+        'res/x.y/', 'res/x.y/g.txt', 'res/c.txt', 'other/h.txt',
+        # the extension text occurring earlier in the path / twice in the name
+        'res/bak.txt/h.txt', 'res/k.txt.txt']
 RULESETS = [
     [{'dir': 'res'}],
     [{'dir': 'res', 'exts': ['.txt'], 'args': [1, 'two'], 'kwargs': {'k': 3}}],
